@@ -122,8 +122,14 @@ def run_algebra(ctx, case):
         if s_full.get_syntax_errors():
             ctx.discard("parso reports a syntax error")
             return
-        for seed, _, fuzzy, truncate in case["picks"]:
-            line, col, frag, klass = cands[seed % len(cands)]
+        # cursors in identifiers with non-ASCII characters are rare among all candidates: every third pick is taken
+        # from them when there are any (case folding and length arithmetic differ there)
+        special = [c for c in cands if not c[2].isascii()]
+        for pi, (seed, _, fuzzy, truncate) in enumerate(case["picks"]):
+            pool = special if (special and pi % 3 == 0) else cands
+            line, col, frag, klass = pool[seed % len(pool)]
+            if not frag.isascii():
+                ctx.cls("fragment:non-ascii")
             ctx.count()
             if truncate:
                 t2 = "".join(lines[:line - 1]) + lines[line - 1][:col]
